@@ -8,6 +8,11 @@ not depend on hash-map iteration order" is `f vis₁ = f vis₂` for all `vis₁
 (`List.Perm`).  Every theorem below quantifies over ALL maps (lists of any length), ALL
 visiting orders and, for the language part, ALL programs of the fragment of any size and
 ALL adversary annotations; nothing is bounded.
+
+A second adversary chooses the ADDRESS of every allocation: an object graph (`RObj`) carries
+an address at every node and "nothing observable depends on memory addresses" is
+`route o = route o'` for all graphs `o`, `o'` that are equal up to addresses
+(`render_address_independent`, for every rendering route of the code and every object type).
 -/
 namespace Risor.C05
 
@@ -437,6 +442,210 @@ theorem eval_determined_by_code (g₁ g₂ : List String) (p q : Prog) (h : comp
     the source entries (the Impl model never invents or drops an entry) -/
 theorem compileMap_visits_each_entry_once (perm : List Nat) (es : Entries) :
     (applyPerm perm (compEntries es)).Perm (compEntries es) := applyPerm_perm perm _
+
+/-! ## rendering: the address of an allocation as a second adversary
+
+An object graph is rendered through `Inspect()`, `PrintableValue` + a fmt verb (print, printf,
+sprintf, errorf, fmt.*, errors.new), `builtins.String`, string interpolation, or — by the
+`error()` builtin — through `Interface()`.  Every node carries the address the adversary chose
+for its allocation; two graphs with the same `eraseAddr` are the same script value living at
+different places in memory (another run, another process, another repetition). -/
+
+theorem RObj.eraseAddr_kind (o : RObj) : o.eraseAddr.kind = o.kind := by cases o; rfl
+theorem RObj.eraseAddr_raw (o : RObj) : o.eraseAddr.raw = o.raw := by cases o; rfl
+theorem RObj.eraseAddr_aux (o : RObj) : o.eraseAddr.aux = o.aux := by cases o; rfl
+
+theorem nodeInsp_congr (k : Kind) (txt : String) (ks ks' : List Rendered)
+    (h1 : ks.map (·.insp) = ks'.map (·.insp))
+    (h2 : k = .Cell → ks.map (·.fmtS) = ks'.map (·.fmtS)) :
+    nodeInsp k txt ks = nodeInsp k txt ks' := by
+  unfold nodeInsp
+  by_cases hc : k = .Cell
+  · simp only [hc, if_true, h2 hc]
+  · simp only [hc, if_false, h1]
+
+mutual
+  /-- the two texts an object offers do not depend on any address in the graph: `Inspect()`
+      never, `%s` of the object whenever the object has a `String()` method -/
+  theorem render_erase : ∀ o : RObj, o.cellsOk = true →
+      (render o.eraseAddr).insp = (render o).insp ∧
+      (hasString o.kind = true → (render o.eraseAddr).fmtS = (render o).fmtS)
+    | .mk k a txt raw aux kids, h => by
+      simp only [RObj.cellsOk, Bool.and_eq_true, Bool.or_eq_true, bne_iff_ne, ne_eq] at h
+      obtain ⟨hc, hk⟩ := h
+      obtain ⟨ih1, ih2⟩ := renderAll_erase kids hk
+      have hn : nodeInsp k txt (renderAll kids.eraseAddr) = nodeInsp k txt (renderAll kids) := by
+        refine nodeInsp_congr k txt _ _ ih1 ?_
+        intro hcell
+        cases hc with
+        | inl hne => exact absurd hcell hne
+        | inr hs => exact ih2 hs
+      refine ⟨?_, ?_⟩
+      · simp only [RObj.eraseAddr, render, hn]
+      · intro hs
+        simp only [RObj.kind] at hs
+        simp only [RObj.eraseAddr, render, hn, hs, if_true]
+  theorem renderAll_erase : ∀ os : RObjs, os.cellsOk = true →
+      (renderAll os.eraseAddr).map (·.insp) = (renderAll os).map (·.insp) ∧
+      (os.allStringers = true →
+        (renderAll os.eraseAddr).map (·.fmtS) = (renderAll os).map (·.fmtS))
+    | .nil, _ => ⟨rfl, fun _ => rfl⟩
+    | .cons o r, h => by
+      simp only [RObjs.cellsOk, Bool.and_eq_true] at h
+      obtain ⟨ho1, ho2⟩ := render_erase o h.1
+      obtain ⟨hr1, hr2⟩ := renderAll_erase r h.2
+      refine ⟨?_, ?_⟩
+      · simp only [RObjs.eraseAddr, renderAll, List.map_cons, ho1, hr1]
+      · intro hs
+        simp only [RObjs.allStringers, Bool.and_eq_true] at hs
+        simp only [RObjs.eraseAddr, renderAll, List.map_cons, ho2 hs.1, hr2 hs.2]
+end
+
+/-- `Inspect()` of a graph is that of the graph with all addresses forgotten -/
+theorem inspect_erase (o : RObj) (h : o.cellsOk = true) : o.eraseAddr.inspect = o.inspect :=
+  (render_erase o h).1
+
+theorem strM_erase (o : RObj) (h : o.cellsOk = true) : o.eraseAddr.strM = o.strM := by
+  unfold RObj.strM
+  rw [RObj.eraseAddr_kind, RObj.eraseAddr_raw, inspect_erase o h]
+
+theorem printable_erase (o : RObj) (h : o.cellsOk = true) : o.eraseAddr.printable = o.printable := by
+  unfold RObj.printable
+  rw [RObj.eraseAddr_kind, RObj.eraseAddr_raw, inspect_erase o h, strM_erase o h]
+
+theorem stringBuiltin_erase (o : RObj) (h : o.cellsOk = true) :
+    o.eraseAddr.stringBuiltin = o.stringBuiltin := by
+  unfold RObj.stringBuiltin
+  rw [RObj.eraseAddr_kind, RObj.eraseAddr_aux, inspect_erase o h, strM_erase o h]
+
+theorem interp_erase (o : RObj) (h : o.cellsOk = true) : o.eraseAddr.interp = o.interp := by
+  unfold RObj.interp
+  rw [RObj.eraseAddr_kind, RObj.eraseAddr_raw, inspect_erase o h]
+
+/-- the four address-free rendering routes of the code, as one record -/
+def routes (o : RObj) : String × String × String × String :=
+  (o.inspect, o.printable, o.stringBuiltin, o.interp)
+
+/-- **`render_address_independent`** — for ALL object graphs (every kind of the inventory at
+    every node, any depth, any fan-out) and ALL pairs of address assignments (`o`, `o'` are the
+    same graph up to addresses), the text produced by `Inspect()` (evaluation result, items
+    inside lists/maps/sets/entries/partials/threads/iterators), by `PrintableValue` + `%v`
+    (print, printf, sprintf, errorf, fmt.*, errors.new), by `string(x)` and by string
+    interpolation is identical.  Guard `cellsOk`: a cell holds an object with a `String()`
+    method (`Cell.String` uses `%s`); cells are never script values (`…_script_values`). -/
+theorem render_address_independent (o o' : RObj) (h : o.eraseAddr = o'.eraseAddr)
+    (hc : o.cellsOk = true) (hc' : o'.cellsOk = true) : routes o = routes o' := by
+  unfold routes
+  rw [← inspect_erase o hc, ← printable_erase o hc, ← stringBuiltin_erase o hc, ← interp_erase o hc,
+    ← inspect_erase o' hc', ← printable_erase o' hc', ← stringBuiltin_erase o' hc', ← interp_erase o' hc', h]
+
+mutual
+  theorem cellFree_cellsOk : ∀ o : RObj, o.cellFree = true → o.cellsOk = true
+    | .mk k a txt raw aux kids, h => by
+      simp only [RObj.cellFree, Bool.and_eq_true] at h
+      simp only [RObj.cellsOk, Bool.and_eq_true, Bool.or_eq_true]
+      exact ⟨Or.inl h.1, cellFrees_cellsOk kids h.2⟩
+  theorem cellFrees_cellsOk : ∀ os : RObjs, os.cellFree = true → os.cellsOk = true
+    | .nil, _ => rfl
+    | .cons o r, h => by
+      simp only [RObjs.cellFree, Bool.and_eq_true] at h
+      simp only [RObjs.cellsOk, Bool.and_eq_true]
+      exact ⟨cellFree_cellsOk o h.1, cellFrees_cellsOk r h.2⟩
+end
+
+/-- the same for everything a script can get hold of (no `Cell` node: the VM dereferences
+    cells before a value reaches the stack), without any other hypothesis -/
+theorem render_address_independent_script_values (o o' : RObj) (h : o.eraseAddr = o'.eraseAddr)
+    (hc : o.cellFree = true) (hc' : o'.cellFree = true) : routes o = routes o' :=
+  render_address_independent o o' h (cellFree_cellsOk o hc) (cellFree_cellsOk o' hc')
+
+/-- the full statement (no guard on cells) … -/
+def render_full : Prop :=
+  ∀ o o' : RObj, o.eraseAddr = o'.eraseAddr → routes o = routes o'
+
+def chanAt (a : Nat) : RObj := .mk .Chan a "2" "" "" .nil
+
+/-- … is false: a cell that holds a channel is formatted with `%s`, a channel has no
+    `String()`, so fmt prints the pointer — `cell(0x…)` -/
+theorem render_counterexample_cell : ¬ render_full := by
+  intro h
+  have := h (.mk .Cell 7 "" "" "" (.cons (chanAt 1) .nil)) (.mk .Cell 7 "" "" "" (.cons (chanAt 2) .nil)) rfl
+  revert this
+  decide
+
+/-- **why the `Inspect()` fallback matters**: `PrintableValue` without it (an object that has
+    no `String()` is handed to fmt as it is) renders the SAME channel differently at two
+    addresses, whereas with the fallback both give `chan(2)` -/
+theorem printable_without_fallback_counterexample :
+    (chanAt 1).eraseAddr = (chanAt 2).eraseAddr ∧
+    (chanAt 1).printableNoFallback ≠ (chanAt 2).printableNoFallback ∧
+    (chanAt 1).printable = "chan(2)" ∧ (chanAt 2).printable = "chan(2)" :=
+  ⟨rfl, by decide, by decide, by decide⟩
+
+/-- every type of the inventory that has no `String()` method is address-dependent without the
+    fallback (so the fallback is needed exactly for Chan, Entry, Partial, Thread, GoField,
+    GoMethod, GoType) and only those -/
+theorem no_fallback_differs_iff_no_string :
+    allKinds.all (fun k =>
+      ((RObj.mk k 1 "" "" "" .nil).printableNoFallback != (RObj.mk k 2 "" "" "" .nil).printableNoFallback)
+        == !(hasString k)) = true := by
+  decide
+
+/-- the `error(fmt, args…)` builtin, full statement: the message does not depend on addresses -/
+def errorFormat_full : Prop :=
+  ∀ o o' : RObj, o.eraseAddr = o'.eraseAddr → ifaceV o = ifaceV o'
+
+/-- **false on the unchanged code**: `error("%v", chan(2))` — `Chan.Interface()` is the Go
+    channel and `%v` prints its address -/
+theorem error_format_counterexample_chan : ¬ errorFormat_full := by
+  intro h
+  have := h (chanAt 1) (chanAt 2) rfl
+  revert this
+  decide
+
+mutual
+  theorem ifaceV_erase : ∀ o : RObj, o.noRawAddr = true → ifaceV o.eraseAddr = ifaceV o
+    | .mk k a txt raw aux kids, h => by
+      simp only [RObj.noRawAddr, Bool.and_eq_true, Bool.not_eq_true'] at h
+      have ih := ifaceAll_erase kids h.2
+      cases k <;> first
+        | (simp only [rawAddrKind] at h; exact absurd h.1 (by decide))
+        | simp only [RObj.eraseAddr, ifaceV, ih]
+  theorem ifaceAll_erase : ∀ os : RObjs, os.noRawAddr = true → ifaceAll os.eraseAddr = ifaceAll os
+    | .nil, _ => rfl
+    | .cons o r, h => by
+      simp only [RObjs.noRawAddr, Bool.and_eq_true] at h
+      simp only [RObjs.eraseAddr, ifaceAll, ifaceV_erase o h.1, ifaceAll_erase r h.2]
+end
+
+/-- **`error_format_partial`**: for all graphs without an object whose `Interface()` is a Go
+    pointer, channel or func (guard `noRawAddr`: no channel, builtin, file, partial, proxy,
+    Go reflection wrapper anywhere) and all address assignments, the message is the same -/
+theorem error_format_partial (o o' : RObj) (h : o.eraseAddr = o'.eraseAddr)
+    (hn : o.noRawAddr = true) (hn' : o'.noRawAddr = true) : ifaceV o = ifaceV o' := by
+  rw [← ifaceV_erase o hn, ← ifaceV_erase o' hn', h]
+
+/-- non-vacuity: a list holding a channel, an iterator entry, a partial over a builtin, a thread
+    and a map, at two address assignments; all routes give the same text -/
+def sampleGraph (a b c d : Nat) : RObj :=
+  .mk .List a "" "" "" (.cons (.mk .Chan b "2" "" "" .nil)
+    (.cons (.mk .Entry c "" "" "" (.cons (.mk .Int 0 "0" "0" "" .nil) (.cons (.mk .String 0 "\"x\"" "x" "" .nil) .nil)))
+    (.cons (.mk .Partial d "" "" "" (.cons (.mk .Builtin b "len" "" "" .nil) (.cons (.mk .Int 0 "1" "1" "" .nil) .nil)))
+    (.cons (.mk .Thread a "" "" "" (.cons (.mk .Function c "func f() { return 1 }" "func f() { ... }" "" .nil) .nil))
+    (.cons (.mk .Map d "" "" "" (.cons (.mk .pair 0 "\"k\"" "k" "" (.cons (.mk .NilType 0 "nil" "nil" "" .nil) .nil)) .nil)) .nil)))))
+
+example : (sampleGraph 1 2 3 4).eraseAddr = (sampleGraph 50 60 70 80).eraseAddr ∧
+    (sampleGraph 1 2 3 4).cellFree = true ∧
+    (sampleGraph 1 2 3 4).inspect =
+      "[chan(2), iter_entry(0, \"x\"), partial(builtin(len), 1), thread(func f() { return 1 }), {\"k\": nil}]" ∧
+    (sampleGraph 1 2 3 4).printable = (sampleGraph 1 2 3 4).inspect :=
+  ⟨rfl, by decide, by decide, by decide⟩
+
+/-- the guards really exclude something / are satisfiable -/
+example : (sampleGraph 1 2 3 4).noRawAddr = false ∧
+    (RObj.mk .List 9 "" "" "" (.cons (.mk .Function 3 "func() { }" "func() { ... }" "" .nil) .nil)).noRawAddr = true ∧
+    ifaceV (RObj.mk .List 9 "" "" "" (.cons (.mk .Function 3 "func() { }" "func() { ... }" "" .nil) .nil)) = "[<nil>]" := by
+  decide
 
 /-! ## non-vacuity -/
 
